@@ -182,7 +182,8 @@ def run(ctx: Ctx) -> None:
         balanced = [c for c in walk_local(fn) if isinstance(c, ast.Call) and pm.resolve(fname, c) == ("self", "_consume_balanced_tokens")]
         ok = uses_counter
         why = f"{fname} no longer skips the {what} with _discard_contents"
-        paren_counted = any(pm.resolve(fname, c) == ("self", "_discard_contents") and c.args and isinstance(c.args[0], ast.Constant) and c.args[0].value == "(" for c in walk_local(fn) if isinstance(c, ast.Call))
+        # (an opener that is not a constant - the type of the token just read - may be '(': which openers it can be is R13.1's question)
+        paren_counted = any(pm.resolve(fname, c) == ("self", "_discard_contents") and c.args and (not isinstance(c.args[0], ast.Constant) or c.args[0].value == "(") for c in walk_local(fn) if isinstance(c, ast.Call))
         # (the initializer scanner may read a `decltype(...)` initializer-id with the balanced consumer; its argument
         # lists - arbitrary expressions - are what must go through the counter)
         if (fname == "_consume_static_assert" or (fname == "_discard_ctor_initializer" and not paren_counted)) and balanced and heuristic:
